@@ -202,6 +202,14 @@ var Vp9 = &cu.Spec{
 	MarkerOnlyLast: true,
 	Stateful:       true,
 	MaxFrameBytes:  vpMaxFrame,
+	FrameOfSize: func(n int) cu.Frame {
+		b := make([]byte, n)
+		for i := range b {
+			b[i] = byte(i*13 + 1)
+		}
+		copy(b, []byte{0x82, 0x49, 0x83, 0x42, 0x00, 0x77, 0xf0, 0x32, 0x34})
+		return cu.Frame{b}
+	},
 	RetainBound:    vpMaxFrame + 65536,
 	Hostile:        vp9Hostile,
 	PickMax: func(r *rand.Rand) int {
